@@ -522,6 +522,70 @@ theorem krausTensorSum_action (ks : List (Mat K d d)) (rho : Mat K d d) :
 
 end kraus
 
+/-! ## process matrix and column-major computational basis -/
+section procmat
+variable {K : Type} [CommRing K] [StarRing K] {d n : Nat}
+
+theorem eq_pidx_iff {a b : Nat} (y : Fin (a * b)) (i : Fin a) (j : Fin b) :
+    y = pidx i j ↔ pdiv y = i ∧ pmod y = j := by
+  constructor
+  · rintro rfl; simp
+  · rintro ⟨rfl, rfl⟩; simp
+
+/-- `E_α^† ⊗ E_β^T` for computational-basis elements is a single matrix unit -/
+theorem kron_comp_get (al be x y : Fin (d * d)) :
+    (kron (ctransp ((compBasis d true : Basis K d (d * d)).get al))
+        (((compBasis d true : Basis K d (d * d)).get be).transpose)).get x y
+      = if y = pidx (pdiv al) (pdiv be) ∧ x = pidx (pmod al) (pmod be) then 1 else 0 := by
+  simp only [kron, ctransp, Mat.transpose, compBasis, Vec.get_ofFn, Mat.get_ofFn, if_true, eMat_get,
+    conj_eq_star, eq_pidx_iff]
+  by_cases h1 : pdiv y = pdiv al <;> by_cases h2 : pdiv x = pmod al <;>
+    by_cases h3 : pmod y = pdiv be <;> by_cases h4 : pmod x = pmod be <;> simp [h1, h2, h3, h4]
+
+theorem processMatrix_get (B : Basis K d (d * d)) (hs : Mat K (d * d) (d * d)) (al be : Fin (d * d)) :
+    (processMatrix B hs).get al be
+      = (convertHs B (compBasis d true) hs).get (pidx (pdiv al) (pdiv be)) (pidx (pmod al) (pmod be)) := by
+  simp only [processMatrix, Mat.get_ofFn, Mat.trace, Mat.mul, fsum_eq_sum, kron_comp_get]
+  rw [Finset.sum_eq_single (pidx (pmod al) (pmod be))]
+  · rw [Finset.sum_eq_single (pidx (pdiv al) (pdiv be))]
+    · simp
+    · intro y _ hy; simp [hy]
+    · intro h; exact absurd (Finset.mem_univ _) h
+  · intro x _ hx
+    apply Finset.sum_eq_zero
+    intro y _; simp [hx]
+  · intro h; exact absurd (Finset.mem_univ _) h
+
+/-- the index permutation `(i, j) ↦ (j, i)` on flattened indices -/
+def swapIdx {d : Nat} (x : Fin (d * d)) : Fin (d * d) := pidx (pmod x) (pdiv x)
+
+@[simp] theorem swapIdx_swapIdx {d : Nat} (x : Fin (d * d)) : swapIdx (swapIdx x) = x := by
+  simp [swapIdx]
+
+theorem swapIdx_involutive {d : Nat} : Function.Involutive (swapIdx : Fin (d * d) → Fin (d * d)) :=
+  swapIdx_swapIdx
+
+theorem compBasis_col_get (d : Nat) (x : Fin (d * d)) :
+    (compBasis d false : Basis K d (d * d)).get x = (compBasis d true : Basis K d (d * d)).get (swapIdx x) := by
+  simp [compBasis, swapIdx]
+
+theorem convertHs_reindex (F T T' : Basis K d n) (σ : Fin n → Fin n)
+    (h : ∀ x, T'.get x = T.get (σ x)) (hs : Mat K n n) (x y : Fin n) :
+    (convertHs F T' hs).get x y = (convertHs F T hs).get (σ x) (σ y) := by
+  simp [convertHs, Mat.mul, ctransp, transU, h]
+
+
+/-- `matrix.flatten('F')` (column-major flattening) -/
+def flatCol {d : Nat} (A : Mat K d d) : Vec K (d * d) := Vec.ofFn fun x => A.get (pmod x) (pdiv x)
+
+theorem flatCol_get {d : Nat} (A : Mat K d d) (x : Fin (d * d)) :
+    (flatCol A).get x = (flat A).get (swapIdx x) := by simp [flatCol, swapIdx]
+
+theorem sum_swapIdx {d : Nat} (g : Fin (d * d) → K) : ∑ y, g (swapIdx y) = ∑ y, g y :=
+  Equiv.sum_comp (swapIdx_involutive.toPerm) g
+
+end procmat
+
 /-! ## linearity of the flattened forms -/
 section linear
 variable {K : Type} [CommRing K] [StarRing K] {d n : Nat}
@@ -580,5 +644,84 @@ instance : StarRing CRat where
   star_mul := by intro a b; apply ext' <;> simp <;> ring
   star_add := by intro a b; apply ext' <;> simp <;> ring
 end CRat
+
+
+/-! ## Kraus extraction: filter / sort / scaling of `krausRaw` under the `eigh` contract -/
+section krauslink
+variable {d : Nat}
+
+theorem ofRat_mul_ofRat (a b : Rat) : CRat.ofRat a * CRat.ofRat b = CRat.ofRat (a * b) := by
+  apply CRat.ext' <;> simp [CRat.ofRat]
+
+theorem star_ofRat (a : Rat) : star (CRat.ofRat a) = CRat.ofRat a := by
+  apply CRat.ext' <;> simp [CRat.ofRat, Star.star]
+
+theorem insertDesc_perm (e : EigPair d) (l : List (EigPair d)) : (insertDesc e l).Perm (e :: l) := by
+  induction l with
+  | nil => simp [insertDesc]
+  | cons x xs ih =>
+    unfold insertDesc
+    split
+    · exact List.Perm.refl _
+    · exact (List.Perm.cons x ih).trans (List.Perm.swap e x xs)
+
+theorem sortDesc_perm (l : List (EigPair d)) : (sortDesc l).Perm l := by
+  unfold sortDesc
+  have : ∀ (l acc : List (EigPair d)), (l.foldl (fun acc e => insertDesc e acc) acc).Perm (l ++ acc) := by
+    intro l
+    induction l with
+    | nil => intro acc; simp
+    | cons a l ih =>
+      intro acc
+      simp only [List.foldl_cons, List.cons_append]
+      exact (ih _).trans ((List.Perm.append_left l (insertDesc_perm a acc)).trans List.perm_middle)
+  simpa using this l []
+
+theorem sum_filter_of_zero {α : Type} (l : List α) (p : α → Bool) (f : α → CRat)
+    (h : ∀ e ∈ l, p e = false → f e = 0) :
+    ((l.filter p).map f).sum = (l.map f).sum := by
+  induction l with
+  | nil => simp
+  | cons a l ih =>
+    have ih' := ih (fun e he => h e (List.mem_cons_of_mem a he))
+    by_cases hp : p a = true
+    · simp [List.filter_cons, hp, ih']
+    · have hp' : p a = false := by simpa using hp
+      have := h a (List.mem_cons_self) hp'
+      simp [List.filter_cons, hp', ih', this]
+
+/-- the list returned by `krausRaw` (CP branch) has `Σ_K |K⟫⟪K| = Σ_e λ_e v_e v_e^†`, provided numpy's
+`sqrt` is exact on the kept eigenvalues and every eigenvalue inside the zero filter is exactly 0 -/
+theorem krausRaw_sum (B : Basis CRat d (d * d)) (hs : Mat CRat (d * d) (d * d))
+    (eigs : List (EigPair d)) (atol atolS : Rat)
+    (hcp : isCp (choiSparse B hs) eigs atol = true)
+    (hsqrt : ∀ e ∈ eigs, closeZero e.val atolS = false → e.sqrtVal * e.sqrtVal = e.val)
+    (hzero : ∀ e ∈ eigs, closeZero e.val atolS = true → e.val = 0) (i j : Fin (d * d)) :
+    ((krausRaw B hs eigs atol atolS).map fun k => (flat k).get i * star ((flat k).get j)).sum
+      = (eigs.map fun e => CRat.ofRat e.val * (e.vec.get i * star (e.vec.get j))).sum := by
+  unfold krausRaw
+  simp only [hcp, Bool.not_true, Bool.false_eq_true, if_false, List.map_map]
+  rw [((sortDesc_perm _).map _).sum_eq]
+  have hfun : ∀ e ∈ eigs, closeZero e.val atolS = false →
+      ((fun k : Mat CRat d d => (flat k).get i * star ((flat k).get j)) ∘
+        fun e : EigPair d => (unflat e.vec : Mat CRat d d).smul (CRat.ofRat e.sqrtVal)) e
+      = CRat.ofRat e.val * (e.vec.get i * star (e.vec.get j)) := by
+    intro e he hz
+    simp only [Function.comp, flat_get, Mat.smul, Mat.get_ofFn, unflat_get, pidx_pdiv_pmod]
+    rw [star_mul', star_ofRat, ← hsqrt e he hz, ← ofRat_mul_ofRat]
+    ring
+  rw [← sum_filter_of_zero eigs (fun e => !closeZero e.val atolS)
+    (fun e => CRat.ofRat e.val * (e.vec.get i * star (e.vec.get j)))]
+  · apply congrArg
+    apply List.map_congr_left
+    intro e he
+    have hm := List.mem_filter.1 he
+    exact hfun e hm.1 (by simpa using hm.2)
+  · intro e he hp
+    have : closeZero e.val atolS = true := by simpa using hp
+    rw [hzero e he this]
+    apply CRat.ext' <;> simp [CRat.ofRat]
+
+end krauslink
 
 end QM.C02
